@@ -191,11 +191,12 @@ impl<T: Types> RaftLogState<T> {
         // Do not check for consecutive log_id if last is None;
         // Because it's common to append the first log with non-zero index,
         // such as, when restoring a RaftLog.
-        if self.last.is_some() {
-            let expected = T::next_log_index(self.last.as_ref());
+        if let Some(last) = self.last.as_ref() {
+            // `None` if the last index is `u64::MAX`: nothing can follow it.
+            let expected = T::log_index(last).checked_add(1);
             let this_index = T::log_index(log_id);
 
-            if expected != this_index {
+            if expected != Some(this_index) {
                 return Err(LogIdNonConsecutive::new(
                     self.last.clone(),
                     log_id.clone(),
